@@ -398,5 +398,18 @@ func fullLoopsOver(info *types.Info, root ast.Node, isSrc func(e ast.Expr) bool)
 		}
 		return true
 	})
+	// the element may be named through a local (`x := S[i]`)
+	for k := range out {
+		base := out[k].IsElem
+		out[k].IsElem = func(e ast.Expr) bool {
+			if base(e) {
+				return true
+			}
+			if d := deref(info, e); d != ast.Unparen(e) {
+				return base(d)
+			}
+			return false
+		}
+	}
 	return out
 }
